@@ -226,7 +226,7 @@ pub fn main(o: &Opts) -> i32 {
         progs.retain(|p| Some(p.name().as_str()) == v["case"]["program"].as_str());
     }
     rep.bounds = json!({"programs": progs.len(), "space": if o.tier == Tier::Quick { "P(3,1) (second closures for phase-1 length <= 1) + S(5)" } else { "P(4,1) + P(3,2) + S(9)" },
-        "histories": "every history of earlier same-thread calls (27 events incl. identity points, wrong lengths, too few generators, undecodable bytes, failing batch) of depth 1 (quick) / <= 2 (thorough) in front of 5 subjects",
+        "histories": "every history of earlier same-thread calls (31 events incl. identity points, wrong lengths, too few generators, undecodable bytes, failing batch) of depth 1 (quick) / <= 2 (thorough) in front of 5 subjects",
         "deviated_proofs": "P(1,1) + small size family + extras: each point slot += B (R slots += B_blinding), each absorbed scalar += 1; the verifier's recorded transcript must carry the replaced element"});
     rep.curves = CURVES.iter().map(|s| s.to_string()).collect();
     rep.rule = "for every program an honest prover run and verifier run are recorded at the Merlin API; a monitor automaton (the protocol's fixed order with expected payloads computed from the program, the commitments and the decoded proof) consumes the main-transcript events of each role; then role synchrony, fork discipline and the follow-up challenge of the returned transcripts are checked".into();
